@@ -12,25 +12,25 @@ import (
 
 // Emission is one line template handed to a sink during a converter method.
 type Emission struct {
-	Method string   // exported converter method (or helper region)
-	Via    []string // chain of inlined product functions
-	Sink   string
-	T      Tmpl
-	Conds  []string // symbolic conditions controlling the emission
-	InLoop bool
-	Pos    token.Pos // position of the statement in the exported method that leads to the emission
+	Method  string   // exported converter method (or helper region)
+	Via     []string // chain of inlined product functions
+	Sink    string
+	T       Tmpl
+	Conds   []string // symbolic conditions controlling the emission
+	InLoop  bool
+	Pos     token.Pos // position of the statement in the exported method that leads to the emission
 	SinkPos token.Pos
-	Seq    int
-	Helper string // name of the shell helper routine this line belongs to ("" = main code)
+	Seq     int
+	Helper  string // name of the shell helper routine this line belongs to ("" = main code)
 }
 
 // MethodFacts is everything E3 extracts for one exported converter method.
 type MethodFacts struct {
-	Name      string
-	Fn        *ssa.Function
-	Emissions []Emission
-	Returns   []Val // per result index: returned template(s) on success paths
-	FieldsSet map[string][]string // field -> description of stored values
+	Name       string
+	Fn         *ssa.Function
+	Emissions  []Emission
+	Returns    []Val               // per result index: returned template(s) on success paths
+	FieldsSet  map[string][]string // field -> description of stored values
 	FieldsRead map[string]bool
 }
 
